@@ -432,11 +432,99 @@ def run_driver(lines, exe=None):
 
 # ----------------------------------------------------------------------------- PRNG helpers
 
+_DICT = None
+def source_dictionary():
+    """Fuzzing dictionary read from the CURRENT source of the library (ACRA_REPO / /repo): every integer literal
+    >= 16 and every bytes literal of 2..16 bytes that appears anywhere in AcraNetwork/**/*.py (AST constants, so a
+    magic number, sync word, sentinel or mask that an edit introduces is in the dictionary of that very run),
+    plus the byte-swapped 16/32-bit forms.  Used for field values (`Rng.boundary`), for content planted into payload
+    bytes (`Rng.bytes_`) and for directed sweeps over discriminator fields (`Rng.dictionary`)."""
+    global _DICT
+    if _DICT is not None:
+        return _DICT
+    import ast
+    ints, byts = set(), set()
+    root = os.path.join(REPO, "AcraNetwork")
+    for d, _, fs in os.walk(root):
+        for fn in fs:
+            if not fn.endswith(".py"):
+                continue
+            try:
+                tree = ast.parse(open(os.path.join(d, fn), "rb").read())
+            except Exception:
+                continue
+            for n in ast.walk(tree):
+                if isinstance(n, ast.Constant):
+                    v = n.value
+                    if isinstance(v, bool):
+                        continue
+                    if isinstance(v, int) and 16 <= v < (1 << 64):
+                        ints.add(v)
+                    elif isinstance(v, bytes) and 2 <= len(v) <= 16:
+                        byts.add(v)
+    for v in list(ints):
+        for w in (2, 4, 8):
+            if v < (1 << (8 * w)):
+                byts.add(v.to_bytes(w, "big")); byts.add(v.to_bytes(w, "little"))
+                if w < 8:
+                    ints.add(int.from_bytes(v.to_bytes(w, "big"), "little"))
+                break
+    for v in list(ints):                     # neighbours of every literal (off-by-one comparisons against a sentinel)
+        ints.add(v - 1); ints.add(v + 1)
+    _DICT = {"ints": sorted(ints), "bytes": sorted(byts)}
+    return _DICT
+
 class Rng(random.Random):
-    def bytes_(self, n):
+    """PRNG of a run.  `structured` is the probability that `bytes_` returns content with structure instead of
+    uniform noise; families whose reference reader assumes generic content switch it off with `with rng.plain():`."""
+    structured = 0.3
+    def _raw(self, n):
         return bytes(self.getrandbits(8) for _ in range(n)) if n else b""
+    def plain(self):
+        rng = self
+        class _P:
+            def __enter__(s):
+                s.old = rng.structured; rng.structured = 0.0
+            def __exit__(s, *a):
+                rng.structured = s.old
+        return _P()
+    def bytes_(self, n):
+        """n content bytes: mostly uniform noise; otherwise one of — a constant byte (0x00 / 0xFF / any), periodic
+        content (period 1..16, 188, 2048: equal neighbouring blocks), noise with long runs of 0x00 / 0xFF, noise
+        with literals of the library's own source planted in it (sync words, magic numbers, start codes)."""
+        if n < 2 or self.random() >= self.structured:
+            return self._raw(n)
+        c = self.random()
+        if c < 0.22:
+            return bytes([self.choice([0x00, 0xFF, 0xFF, self.getrandbits(8)])]) * n
+        if c < 0.48:
+            per = self.choice([1, 2, 2, 3, 4, 4, 8, 8, 16, 188, 2048])
+            per = max(1, min(per, n // 2))
+            unit = self._raw(per)
+            return (unit * (n // per + 1))[:n]
+        b = bytearray(self._raw(n))
+        if c < 0.70:
+            for _ in range(self.randrange(1, 3)):
+                ln = min(n, self.choice([4, 8, 9, 12, 16, 32]))
+                at = self.randrange(0, n - ln + 1)
+                b[at:at + ln] = bytes([self.choice([0x00, 0xFF])]) * ln
+            return bytes(b)
+        toks = source_dictionary()["bytes"]
+        for _ in range(self.randrange(1, 4)):
+            if not toks:
+                break
+            t = self.choice(toks)
+            if len(t) > n:
+                continue
+            at = self.choice([0, n - len(t), self.randrange(0, n - len(t) + 1)])
+            b[at:at + len(t)] = t
+        return bytes(b)
+    def dictionary(self, bits):
+        """every source literal (and neighbour / byte-swapped form) that fits an unsigned field of `bits` bits"""
+        m = 1 << bits
+        return [v for v in source_dictionary()["ints"] if 0 <= v < m]
     def boundary(self, bits, signed=False):
-        """a value over a `bits`-wide unsigned field, biased to boundaries"""
+        """a value over a `bits`-wide unsigned field, biased to boundaries and to literals of the library's source"""
         m = (1 << bits) - 1
         c = self.random()
         if c < 0.12: return 0
@@ -444,6 +532,10 @@ class Rng(random.Random):
         if c < 0.36: return m
         if c < 0.46: return 1 << (bits - 1)
         if c < 0.52: return m - 1
+        if c < 0.60 and bits >= 5:
+            d = self.dictionary(bits)
+            if d:
+                return self.choice(d)
         return self.getrandbits(bits)
 
 def seed_from_env():
